@@ -2,7 +2,7 @@
 # tools/runall.sh quick|thorough [ids...]  - runs the registered checks one after the other and prints a summary
 tier=${1:-quick}; shift
 ids=${@:-C01 C02 C03 C04 C05 C06 C07 C08 C09 C10 C11 C12 C13 C14 C15 C16 C17 C18 C19 C20}
-cd /verif
+cd "$(dirname "$0")/.."
 for p in $ids; do
   start=$(date +%s)
   out=$(./check $p $tier 2>&1); rc=$?
